@@ -50,3 +50,30 @@ def as_matrix(tensor, n_dom):
     arr = np.asarray(tensor)
     rows = int(np.prod(arr.shape[:n_dom])) if n_dom else 1
     return arr.reshape(rows, -1)
+
+
+def substituted(d):
+    """ The diagram d (cat, monoidal or rigid) after a round trip through
+    symbols: every plain box without data gets the payload [phi, k], then phi
+    is substituted by a number. The result has the shape of d and boxes that
+    differ from the symbolic ones only in their data; no symbol is left in any
+    view of it. Returns (result, symbol). """
+    import sympy
+    from discopy import cat, monoidal, rigid
+    phi = sympy.Symbol("phi")
+    plain = (cat.Box, monoidal.Box, rigid.Box)
+
+    def symbolic(k, b):
+        if type(b) in plain and b.data is None and not b.is_dagger:
+            return type(b)(b.name, b.dom, b.cod, data=[phi, k])
+        return b
+    boxes = [symbolic(k, b) for k, b in enumerate(d.boxes)]
+    if isinstance(d, monoidal.Diagram):
+        sym = type(d)(d.dom, d.cod, boxes, d.offsets) if type(d) in (
+            monoidal.Diagram, rigid.Diagram) else monoidal.Diagram.upgrade(
+                monoidal.Diagram(d.dom, d.cod, boxes, d.offsets))
+        if isinstance(d, rigid.Diagram):
+            sym = rigid.Diagram(d.dom, d.cod, boxes, d.offsets)
+    else:
+        sym = cat.Arrow(d.dom, d.cod, boxes)
+    return sym.subs(phi, 0.5), phi
